@@ -549,14 +549,26 @@ Definition model_ok_b (c : bcase) : bool :=
 Definition spec_ok_b (c : bcase) : bool :=
   Nat.eqb (b_other c) 0 && (Nat.ltb (b_total c) 40 || Nat.leb 1 (b_rejected c)).
 
+(* ------------------------------------------------------------------ many requests while the stat report writer is stalled *)
+(* l_total requests of a handler that answers 200 "ok" at once, through ONE route (one stat.Metrics instance) of the full
+   engine chain, while stat.SetReportWriter's writer blocks: how many got exactly the handler's response, how many anything
+   else, the longest a request took (ms), whether the request path stopped making progress. *)
+Record lcase := mklc { l_total : nat; l_timeout : Z; l_answered : nat; l_bad : nat; l_max_ms : Z; l_hung : bool }.
+(* the guards do nothing per request that depends on earlier requests (c02_requests_independent): all are answered *)
+Definition model_ok_l (c : lcase) : bool :=
+  negb (l_hung c) && Nat.eqb (l_answered c) (l_total c) && Nat.eqb (l_bad c) 0.
+(* every request is answered by the handler, within the route timeout: recording metrics never blocks the request path *)
+Definition spec_ok_l (c : lcase) : bool :=
+  negb (l_hung c) && Nat.eqb (l_answered c) (l_total c) && Nat.eqb (l_bad c) 0 && (l_max_ms c <? l_timeout c).
+
 (* ------------------------------------------------------------------ the case type vcheck evaluates *)
 Inductive case := CaseT (c : tcase) | CaseC (c : ccase) | CaseR (c : rcase) | CaseM (c : mcase) | CaseRM (c : rmcase)
-                | CaseE (c : ecase) | CaseS (c : scase) | CaseG (c : gcase) | CaseB (c : bcase).
+                | CaseE (c : ecase) | CaseS (c : scase) | CaseG (c : gcase) | CaseB (c : bcase) | CaseL (c : lcase).
 Definition model_ok (c : case) : bool :=
   match c with CaseT t => model_ok_t t | CaseC k => model_ok_c k | CaseR r => model_ok_r r
                | CaseM m => model_ok_m m | CaseRM m => model_ok_rm m | CaseE e => model_ok_e e | CaseS x => model_ok_s x
-               | CaseG g => model_ok_g g | CaseB b => model_ok_b b end.
+               | CaseG g => model_ok_g g | CaseB b => model_ok_b b | CaseL l => model_ok_l l end.
 Definition spec_ok (c : case) : bool :=
   match c with CaseT t => spec_ok_t t | CaseC k => spec_ok_c k | CaseR r => spec_ok_r r
                | CaseM m => spec_ok_m m | CaseRM m => spec_ok_rm m | CaseE e => spec_ok_e e | CaseS x => spec_ok_s x
-               | CaseG g => spec_ok_g g | CaseB b => spec_ok_b b end.
+               | CaseG g => spec_ok_g g | CaseB b => spec_ok_b b | CaseL l => spec_ok_l l end.
